@@ -56,6 +56,17 @@ CHECKS = {
         ref="5 C01", technique="Coq: linear resource invariant on free-monad call trees + soundness + induction on types; in-Coq differential check and monitor",
         note="Trusted: Coq kernel + vm_compute, model Deser.v/Derive.v (tied by correspondence on each run's inputs), harness (Rec error type, OV source), emitter. "
              "No axioms. Clause 'as long as the error type keeps what it is handed' = the error type is the free recording algebra."),
+    "C02": dict(
+        text="Proof: (c02_refinement) the interpreter refines the declarative reference interpreter Spec.spec - in which siblings cannot hide each other by construction "
+             "(c02_elements_independent, c02_map_entries_independent, c02_fields_independent: the faults of a container are the concatenation of the faults of every element / entry / member plus "
+             "one report per field left without a value) - for every target type (std scalars and containers, serde_json::Value, derived structs and enums with every attribute, field error types, "
+             "from/try_from/validate), payload, location and starting state: under an always-Continue error type the run reports exactly the specification's faults, in order, each once, invokes "
+             "exactly the specified user functions, returns Ok(v) iff there is no fault and never panics; (c02_final_error_holds_every_report) for EVERY script the returned error holds a permutation "
+             "of the reports made during the run; (c02_keep_going) both together for deserialize. Only structural faults hide descendants: read off Spec.spec. Correspondence: every catalogue type x "
+             "payloads with 0..8 faults; the implementation's reports (those held by the final error and those made) are compared with Spec.spec evaluated in Coq, and the model with the spec.",
+        ref="5 C02", technique="Coq: refinement of the call-tree interpreter to a declarative specification by induction on types (loop lemmas per container, field-state/value correspondence for "
+                               "derived structs) + held-reports invariant over linearly typed call trees; in-Coq differential check + specification monitor",
+        note="Trusted: as C01 + Spec.v as the reading of 'independent fault' (its independence theorems are part of the obligations). No axioms."),
     "C03": dict(
         text="Proof: (c03_causal) for every call tree hence every deser t v l: two scripts agreeing on the answers before call k give runs that are identical or agree up to and "
              "including call k; (c03_failfast_first) the first call made to the error type is the same under every script, so an always-stop error type is handed exactly the first "
